@@ -271,6 +271,18 @@ def run(ctx):
                             ctx.violation('grouped unordered: entries are not the nested results of a one-to-one assignment reported at the positions of their inputs',
                                           {'cfg': built.desc['cfg'], 'answers': built.answers_json(), 'input': inp, 'table': leaf.desc['tab']}, impl=GG.canon_result(val))
             record(built, inp, kind, val, True, 'grouped:%s' % ('ordered' if outer_ordered else 'unordered'))
+            if rng.random() < 0.15 and len(inp) == len(grouping):
+                # one answer fewer / more than groups (fixed finding F11): must be refused with a ConfigError, by the code and by the model
+                saved = g.config['answers']
+                try:
+                    g.config['answers'] = tuple((list(al[:-1]) if (g.subgrader_list or rng.random() < 0.6) else list(al) + [al[0]]) for al in saved)
+                    kind2, val2 = GG.run_impl(lambda: g.check(None, inp))
+                    if not (kind2 == 'err' and val2[1] == 'ConfigError'):
+                        ctx.violation('grouped: a number of answers different from the number of groups was not refused with a ConfigError',
+                                      {'cfg': built.desc['cfg'], 'input': inp}, impl=GG.canon_result(val2) if kind2 == 'out' else val2)
+                    record(built, inp, kind2, val2, True, 'grouped:answers-mismatch')
+                finally:
+                    g.config['answers'] = saved
     flush()
 
 
